@@ -44,6 +44,10 @@ fn main() {
         eprintln!("HARNESS ERROR: determinism sample mismatch ({} of {})", b.determinism_mismatches, b.determinism_reexecuted);
         std::process::exit(2);
     }
+    if b.probes.get("library_failed_to_load").copied().unwrap_or(0) > 0 || b.probes.get("library_loaded_ok").copied().unwrap_or(0) == 0 {
+        eprintln!("HARNESS ERROR: the generated shared library failed to load in {} histories (loaded in {}): generator defect, histories would be trivial", b.probes.get("library_failed_to_load").copied().unwrap_or(0), b.probes.get("library_loaded_ok").copied().unwrap_or(0));
+        std::process::exit(2);
+    }
     let mut all_violations = b.violations.clone();
     all_violations.extend(sb.violations.iter().cloned());
     let (code, new_count, known_hit) = util::report("C11", &tier, root, &all_violations);
